@@ -3,6 +3,7 @@ package props
 import (
 	"astverif/errflow"
 	"astverif/extrarules"
+	"astverif/layout"
 	"astverif/ownership"
 )
 
@@ -34,4 +35,13 @@ func c08(c *Ctx) {
 	ownership.ResyncIdentity(c.P, r)
 	ownership.ReadFullExact(c.P, r)
 	extrarules.FirstMatchWins(c.P, r, "autoDetectPacketSize")
+	extrarules.DiscardEqualsPeeked(c.P, r)
+	// packets of 188+k bytes yield the same packets: parsePacket on the reference encodings of whole packets with k = 0, 4
+	// and 16 extra bytes after the sync byte (payload only, adaptation field + payload, adaptation field only, one-byte
+	// adaptation field) delivers the same fields and the same payload bytes (A4 pair spec/ts-packet of C11)
+	ck := layout.NewBits(c.P)
+	ck.A3(r, c11PacketSpecPairs(c))
+	for _, d := range ck.IP.Diag {
+		r.Unknown("A0", "diag/"+d, "", d)
+	}
 }
